@@ -63,7 +63,12 @@ func (vc *VC) lemmaTerm(pkg *packages.Package, l *Lemma, skolem bool) (Term, err
 			facts = append(facts, vc.typeFacts(nil, t, c, 0))
 		}
 	}
+	saveND := vc.noDefine
+	if !skolem {
+		vc.noDefine = true // the parameters are bound variables: no named constants, no per-term facts
+	}
 	body := ex.tr(fl.Body.List[0].(*ast.ReturnStmt).Results[0]).t
+	vc.noDefine = saveND
 	if skolem {
 		return implies(and(facts...), body), nil
 	}
